@@ -1,6 +1,8 @@
 import Reduino.Lang.Render
 import Reduino.Lang.InF
 import Reduino.Lemmas.C01
+import Reduino.Lang.Tr2
+import Reduino.Lemmas.C01p
 /-
   C01 — Reject-or-preserve: firmware behaves as the Python source says (core language).
 
@@ -109,5 +111,43 @@ example :
     InF p = true ∧ (∃ c, tr p = .ok c) ∧ Py.run p 3 50 = .ok [.write 4, .write 5] := by
   intro p
   exact ⟨by decide, ⟨_, rfl⟩, by rfl⟩
+
+/-! ### promotion: names first assigned inside a top-level branch or loop body of the prologue (`tr2`, Lang/Tr2.lean) -/
+
+/-- `tr2` is a conservative extension: on the fragment of `tr` it produces the same sketch -/
+theorem tr2_extends_tr (p : Prog) (c : CProg) (hin : InF p = true) (htr : tr p = .ok c) : tr2 p = .ok c := by
+  sorry
+
+/-- the old fragment is part of the new one -/
+theorem InF_subset_InF2 (p : Prog) (hin : InF p = true) : InF2 p = true := by
+  sorry
+
+/-- translation correctness with hoisted declarations: for every program of `InF2` (names may be first assigned directly in
+    the body of a top-level if/elif/else branch or while/for loop of the prologue), every N: whenever CPython completes the run
+    (in particular it never reads a hoisted name before assigning it), the sketch produces the same trace -/
+theorem C01_partial_promotion (p : Prog) (c : CProg) (N fuel : Nat) (t : List Ev)
+    (hin : InF2 p = true) (htr : tr2 p = .ok c) (hpy : Py.run p N fuel = .ok t) :
+    ∃ fuel', C.run c N fuel' = .ok t ∨ C.run c N fuel' = .error .overflow := by
+  sorry
+
+/-- a hoisted name read before its first assignment: Python raises NameError, the sketch prints the default 0 —
+    the theorem's premise `Py.run … = .ok t` is what excludes it -/
+theorem promoted_read_before_assignment :
+    let p : Prog := { pre := .seq (.assign "c" (.int 0)) (.seq (.ifs (.cmp .gt (.var "c") (.int 0)) (.assign "x" (.int 5)) .skip)
+                        (.write (.bin .add (.var "x") (.int 0)))), body := none }
+    Py.run p 0 50 = .error .nameError ∧ (∃ c, tr2 p = .ok c ∧ C.run c 0 50 = .ok [.write 0]) := by
+  sorry
+
+/-- non-vacuity: promotion out of an if/else chain and out of a for loop -/
+example :
+    let p : Prog := { pre := .seq (.assign "c" (.int 1))
+                        (.seq (.ifs (.cmp .gt (.var "c") (.int 0)) (.seq (.assign "zed" (.int 5)) (.assign "abe" (.cmp .lt (.var "zed") (.int 9))))
+                                 (.assign "zed" (.int 7)))
+                        (.seq (.forRange "i" (.int 3) (.seq (.assign "s" (.var "i")) (.aug "s" .add (.var "zed"))))
+                              (.write (.var "s")))),
+                      body := some (.seq (.aug "s" .add (.int 1)) (.write (.var "s"))) }
+    InF2 p = true ∧ InF p = false ∧ (∃ c, tr2 p = .ok c ∧ c.globals.map (·.1) = ["c", "abe", "zed", "s"]) ∧
+      Py.run p 2 80 = .ok [.write 7, .write 8, .write 9] := by
+  sorry
 
 end Reduino.Props.C01
